@@ -112,3 +112,12 @@ void FullHmmTransitionMatrix::fireParameterChanged(const ParameterList& paramete
   upToDate_ = false;
   eqFreqUpToDate_ = false;
 }
+
+void FullHmmTransitionMatrix::setNamespace(const std::string& prefix)
+{
+  AbstractParametrizable::setNamespace(prefix);
+  for (size_t i = 0; i < vSimplex_.size(); ++i)
+  {
+    vSimplex_[i].setNamespace(prefix + TextTools::toString(i + 1) + ".");
+  }
+}
